@@ -646,7 +646,46 @@ def c19(ctx):
                   "literals: every string of length <= %d over {0,1,5,9,.}, digit runs of 15..400 digits with every position of the point, leading/trailing zeros, halfway cases - eval_f64/eval_complex must return the correctly rounded double (decided exactly with big-integer arithmetic), eval_i64 / eval_number / eval_decimal the exact value; print -> re-read round trip over boundary pools and seeded random bit patterns per type; every string of length <= K over {0,1,9,.,i,-,+} replayed against the specification's literal grammar; non-trivial = literals of >= 2 characters and every round trip" % (5 if q else 7),
                   extra={"invariants_checked": ["LiteralForm", "Progress"]}, spec_viol=sv)
 
-CHECKS = {"C18": c18, "C19": c19, "C17": c17, "C16": c16, "C02": c02, "C11": c11, "C06": c06, "C09": c09, "C01": c01, "C03": c03, "C04": c04, "C12": c12, "C13": c13, "C14": c14, "C20": c20}
+def simple_model(ctx, module, cfg, name, beh=True):
+    bp = os.path.join(ctx.wd, "beh_%s.ndjson" % name) if beh else None
+    r = vlib.tlc(module, cfg, "%s_%s" % (ctx.prop, name), workers=4, beh_out=bp, timeout=3600)
+    vlib.tlc_ok(r, module)
+    r.update({"beh_path": bp, "e": "f64", "N": 0, "samples": []})
+    log("TLC %s: %d states, %d behaviours%s" % (module, r["distinct"], r["beh"], (" VIOLATED " + str(r["violated"])) if r["violated"] else ""))
+    return r
+
+def c05(ctx):
+    q = ctx.quick()
+    vlib.vocab_json()
+    fr = simple_model(ctx, "MCFloat", "INIT Init\nNEXT Next\nCHECK_DEADLOCK FALSE\nINVARIANT Total Emit\n", "fclass")
+    models = run_grammar_models(ctx, ["f64"], (lambda e: 5 if q else 6), [])
+    def jobs(profile):
+        js = replay_jobs(ctx, None, profile, models, {"assignments": 1, "boundary_pool": True, "full_placeholders": True, "max_assign": 600 if q else 8000,
+                                                        "event_every": 500, "event_cap": 2000, "nontrivial_min_ops": 1, "profile": profile})
+        js += replay_jobs(ctx, None, profile + "_fc", {"fclass": fr}, {"profile": profile, "event_every": 0})
+        return js
+    f, s = run_jobs(ctx, jobs)
+    sv = [(k, r["violated"], r["log"]) for k, r in list(models.items()) + [("MCFloat", fr)] if r["violated"]]
+    if any(x.get("cat") == "spec_table" for x in f):
+        raise ToolError("FloatSem.tla disagrees with the host IEEE arithmetic: %s" % [x for x in f if x.get("cat") == "spec_table"][:2])
+    return finish(ctx, {"value", "err_on_defined", "ok_on_semantic_err", "profile_diff"}, [fr] + list(models.values()), f, s,
+                  "eval_f64 bit for bit against the reference tree evaluation with host IEEE operations: every token sequence up to N with exhaustive assignment of the boundary literal pool (subnormal and huge digit strings, 2^53 neighbours, halves) x placeholders NaN/+-inf/-0/extremes; every pair of IEEE classes x operator of spec/FloatSem.tla with several representatives each; an Err from an arithmetic tree is a violation; non-trivial = inputs with >= 1 operator",
+                  extra={"invariants_checked": ["FloatSem!NeverErr", "NaNPropagates", "NegOfZeroIsNegZero", "DivByZeroIsInf", "FmodSignOfDividend", "Commutes"]}, spec_viol=sv)
+
+def c07(ctx):
+    q = ctx.quick()
+    return grammar_check(ctx, {"value", "ok_on_semantic_err", "err_on_defined", "profile_diff"}, {"*": 5}, {"*": 6},
+                         {"assignments": 1, "boundary_pool": True, "full_placeholders": True, "max_assign": 700 if q else 8000,
+                          "event_every": 500, "event_cap": 2000, "nontrivial_min_ops": 1}, evals=["dec"], invs=[])
+
+def c08(ctx):
+    q = ctx.quick()
+    return grammar_check(ctx, {"value", "ok_on_semantic_err", "err_on_defined", "ok_on_reject"}, {"*": 5}, {"*": 6},
+                         [{"assignments": 3, "all_functions": True, "each_function": True, "cpx_generic": True, "full_placeholders": False, "event_every": 300, "event_cap": 2000, "nontrivial_min_ops": 1},
+                          {"assignments": 2, "event_every": 300, "event_cap": 1000, "nontrivial_min_ops": 1}],
+                         evals=["cpx"], invs=[], lexer={"alphabets": ["lit", "kw2"], "k_quick": 3, "k_thorough": 5})
+
+CHECKS = {"C05": c05, "C07": c07, "C08": c08, "C18": c18, "C19": c19, "C17": c17, "C16": c16, "C02": c02, "C11": c11, "C06": c06, "C09": c09, "C01": c01, "C03": c03, "C04": c04, "C12": c12, "C13": c13, "C14": c14, "C20": c20}
 
 def replay(prop, path):
     f = json.load(open(path))
